@@ -76,10 +76,16 @@ def impl(case):
     out = cf.CoordinateFrame(naxes=nout, axes_type=tuple(t.upper() for t in case["axes_type"]), axes_order=tuple(range(nout)), name="world")
     mids = [G.frame_obj("mid%d" % i, 1) for i in range(len(case["trs"]) - 2)]
     frames = [det] + mids + [out]
-    w = gw.WCS([(f, None if t is None else G.build(t)) for f, t in zip(frames, case["trs"])])
-    if case["own"] is not None:
-        b = _bb_arg(case["own"])
-        w.bounding_box = b[0] if len(b) == 1 else b
+    built = [None if t is None else G.build(t) for t in case["trs"]]
+    if case["own"] is not None and case.get("own_on_model") and nin > 1:
+        # the WCS inherits its box from the first transform, where it is kept in astropy's own ('C', last axis first) order
+        built[0].bounding_box = _bb_arg(case["own"])[::-1]
+        w = gw.WCS(list(zip(frames, built)))
+    else:
+        w = gw.WCS(list(zip(frames, built)))
+        if case["own"] is not None:
+            b = _bb_arg(case["own"])
+            w.bounding_box = b[0] if len(b) == 1 else b
     kw = {"center": case["center"], "axis_type": case["axis_type"]}
     if case["bb"] is not None:
         b = _bb_arg(case["bb"])
@@ -305,5 +311,5 @@ def gen(rng, tier):
             return b
         own = box() if rng.random() < 0.75 else None
         bb = box() if rng.random() < 0.45 else None
-        yield {"kind": "footprint", "trs": trs, "dims": dims, "axes_type": types, "own": own, "bb": bb, "center": rng.random() < 0.5,
+        yield {"kind": "footprint", "trs": trs, "dims": dims, "axes_type": types, "own": own, "own_on_model": rng.random() < 0.35, "bb": bb, "center": rng.random() < 0.5,
                "axis_type": rng.choice(["all", "all", "spatial", "spectral", "temporal", "custom"])}
